@@ -9,6 +9,7 @@ import RSVerif.Proofs.Layout
 import RSVerif.Proofs.RestoredBasic
 import RSVerif.Proofs.BlocksSpec
 import RSVerif.Proofs.FlatSpec
+import RSVerif.Proofs.SrcBytesSpec
 
 namespace RS
 
@@ -105,5 +106,29 @@ theorem resize_keeps_stale_blocks (f : Flat) (c n p k : Nat) (hp : p < c) (hk : 
     (rd ((f.resize c n).absAt n) p)[k] =
       if p * n + k < f.data.size then f.data.getD (p * n + k) zeroBlock else zeroBlock :=
   Flat.resize_abs_prefix f c n p k hp hk
+
+open RS.SrcS RS.RustS RS.RustB in
+/-- the BYTE LAYOUT code of the working memory AS TRANSLATED FROM TODAY'S SOURCE (`Gen/SrcBytes.lean`, regenerated by
+    `/verif/translate/rs2lean_bytes.py` on every run: `Shards::insert` — whole chunks copied, the tail split into a low
+    and a high half inside the last chunk — and `Shards::undo_last_chunk_encoding` — the high half moved next to the
+    low half, memmove semantics — as the lists of byte copies they perform): for every memory, every shard index
+    and every even shard length, `insert` panics exactly when the shard does not fit a work shard and otherwise
+    turns that shard of the memory into the block model's `bInsert` (the function `blocks_insert` relates to the
+    lane model) and leaves all others alone; `undo_last_chunk_encoding` never panics for a size that fits and
+    applies `bUndoLast` (of `blocks_expose`) to exactly the shards of its range -/
+theorem source_layout_is_block_model (f : Flat) (hwf : f.WF) (hs : f.data.size < 288230376151711744)
+    (hc : f.count < 18446744073709551616) (index : Nat) (hi : index < f.count) (shard : Array Nat)
+    (he : shard.size % 2 = 0) (sb a b : Nat) (hb : b ≤ f.count) (hsb : sb ≤ 64 * f.len64) :
+    ((64 * f.len64 < shard.size → Shards_insert (hdr f) index shard.size = none) ∧
+     (shard.size ≤ 64 * f.len64 →
+       ∃ cs, Shards_insert (hdr f) index shard.size = some cs ∧
+         ∀ j, j < f.count →
+           Flat.shard { f with data := applyFromShard f.data shard cs } j =
+             if j = index then (f.shard j).map (fun old => bInsert old shard) else f.shard j)) ∧
+    (∃ cs, Shards_undo_last_chunk_encoding (hdr f) sb (a, b) = some cs ∧
+       ∀ j, j < f.count →
+         Flat.shard { f with data := applyMoves f.data cs } j =
+           if a ≤ j ∧ j < b then (f.shard j).map (fun s => bUndoLast s sb) else f.shard j) :=
+  ⟨src_insert f hwf hs hc index hi shard he, src_undo_last_chunk_encoding f hwf hs sb a b hb hsb⟩
 
 end RS
